@@ -5,7 +5,8 @@ FUNCTIONS = [('utils', 'theory_BER'), ('utils', 'average_voltages'), ('utils', '
              ('ppm', 'THRESHOLD_EST'), ('ppm', 'BER_analizer'), ('ppm', 'theory_BER')]
 BOUNDS = {'receiver model': 'P_avg, ER, G, NF, BW_opt > BW_el, r, R_L, T, NF_el, relative threshold: all symbolic; OOK and PPM (M in {2,4,16}, hard decision), '
                             'amplified and unamplified',
-          'estimators': 'mu0 < mu1, s0, s1 > 0 symbolic; the library\'s own 1000-point grids executed in full',
+          'estimators': 'mu0 < mu1, s0, s1 > 0 symbolic; the library\'s own 1000-point grids executed in full; PPM hard-decision value against its '
+                        'closed form in the estimated threshold at M = 4 (thorough 2, 4, 16): symbolic levels, and three concrete eyes with mu0 != 0',
           'theory functions': 'mu, s0, s1 symbolic; M in {2,4,8} plus the rejection of non powers of two in 1..20; soft-decision set-up at M in {4,16} (thorough 2..64), x in [-8,8]',
           'call histories': 'THRESHOLD_EST / BER_analizer on one eye object queried with another order before: three concrete (M1 -> M2) pairs (thorough six)'}
 OUTSIDE = ['unamplified calls of average_voltages / noise_variances without G and BW_opt (they evaluate idb(G) and BW_el/BW_opt unconditionally and raise TypeError on the None defaults; the harness passes the neutral values G = 0 dB, BW_opt = BW_el)',
